@@ -18,6 +18,11 @@ class FxError(Exception):
     pass
 
 
+def ACCESSOR(key):
+    """calls that hand out a reference into a PlayerState without changing it"""
+    return key.startswith(PS) and key.endswith("_ref")
+
+
 def strip_cast(t):
     while t[0] == "cast":
         t = t[2]
@@ -54,6 +59,8 @@ def mask_norm(t):
             return (inner[0], inner[1] + (b[1] if t[1] == "Shl" else -b[1]))
     if t[0] == "call" and t[1].endswith("square_mask_from_shift"):
         return shift_norm(t[2][0])
+    if t[0] == "param":
+        return (t, 0)   # a mask parameter of a helper (make_castle): substituted at the call site
     return None
 
 
@@ -154,7 +161,7 @@ def helper_effects(prog, acc_idx):
         if f is None:
             continue
         try:
-            pes = returning_paths(f)
+            pes = returning_paths(f, keep_mem=ACCESSOR)
         except NotLoopFree:
             continue
         if len(pes) != 1:
@@ -250,7 +257,7 @@ def make_like_table(prog, key, acc_idx, helper_fx):
     if role is None:
         raise FxError("turn flip / get_active_and_passive_mut not found in %s" % key)
     try:
-        pes = returning_paths(f, limit=100000)
+        pes = returning_paths(f, limit=100000, keep_mem=ACCESSOR)
     except (NotLoopFree, OverflowError) as e:
         raise FxError("%s: %s" % (key, e))
     # the side-to-move atom: a local assigned from is_white_turn(self) at entry
@@ -351,3 +358,13 @@ def xor_table(prog, acc_idx):
                 preds[d[1].rsplit("::", 1)[-1]] = c != ("in", (0,))
         out.append((kind, eqs, full, pawn, preds))
     return out, len(pes)
+
+
+def base_name_sq(sq):
+    """(getter name | None, offset) of a normalised square"""
+    b, off = sq
+    if b is None:
+        return (None, off)
+    if isinstance(b, str):
+        return (b, off)
+    return (b[1].rsplit("::", 1)[-1] if b[0] == "call" else show(b), off)
